@@ -79,7 +79,7 @@ PROPS = {
              assumptions=["evaluation points interior to the domain by a margin (oracle) / InDomain (theorem)"],
              partial="rounding 'commensurate with conditioning' explored by oracles only; x**0 at x=0 under AD is NaN (outside 'interior of the domain')"),
     "C03": P(["tri"], tb=TRI_TB, assumptions=TRI_AS,
-             partial="the tiling clauses (inside, pairwise disjoint, area sum) are decided by the exact integer oracle on every explored input (exhaustive on the 4x4 lattice up to 6 vertices); the all-input theorems cover non-degeneracy and the local geometry"),
+             partial="the tiling clauses (inside, pairwise disjoint, area sum) are decided by the exact integer oracle on every explored input (exhaustive on the 4x4 lattice up to 6 vertices); the all-input theorems cover non-degeneracy, corners and the local geometry; for triangles, all simple quadrilaterals and strictly convex x-monotone n-gons the count, corners, non-degeneracy and exact total area of the output are theorems (C04Triangle, C04Quad, C04QuadV, C04Convex); pairwise disjointness of the triangles is not proved for n > 4"),
     "C04": P(["tri"], tb=TRI_TB, assumptions=TRI_AS,
              partial="acceptance is a theorem for every non-degenerate triangle (C04Triangle.triangle_accepted_general, vertical edges included) and every simple quadrilateral with distinct abscissae (C04Quad.quad_accepted: convex, reflex Bend, improper Start, merging End; two triangles, exact area, ghost order flag true); C04Ties/C04Order justify the comparator's tie rules and the list model of the B-tree; C04QuadV.quad_accepted_general removes the distinct-abscissae hypothesis (vertical edges, aligned vertices); C04Convex.convex_accepted: every strictly convex x-monotone polygon with n >= 3 vertices and distinct abscissae, any start vertex and orientation, yields n-2 non-degenerate triangles with input corners and total area |shoelace|, ghost flag true (induction over the event queue); for other inputs acceptance is decided by exhaustive enumeration + structured generators (the general sweep invariant is not proved)"),
     "C15": P(["tri"], tb=TRI_TB, assumptions=TRI_AS,
@@ -116,6 +116,9 @@ PROPS = {
 # display models were written against
 for _pid in ("C07", "C08", "C11", "C12", "C13", "C14", "C17", "C18", "C19", "C20"):
     PROPS[_pid]["ties"] = ["C06"]
+# the full-path theorems for triangles, quadrilaterals and convex polygons also state C03's clauses for those classes
+# (corners are input vertices, non-degenerate triangles, absolute areas add up to the shoelace area)
+PROPS["C03"]["ties"] = PROPS["C03"]["ties"] + ["C04Triangle", "C04Quad", "C04QuadV", "C04Convex"]
 # Cav/Thm/C01Tables.lean: the Gauss-Kronrod tables in the source are the 10/21-point pair (defects on monomials,
 # embedded nodes, positive weights): an obligation of every property whose model integrates with them
 # Cav/Thm/C05*.lean: the AD operations regenerated from differentiable.rs / basic_arithmetic.rs compute value and true
